@@ -29,12 +29,26 @@ def gen_scenario(rng, index):
         progs.append(gen.gen_program(rng, f"r{index}t{len(progs)}", **opts))
     for _ in range(rng.choice([1, 2, 3, 4])):
         progs.append(gen.variant_of(rng, rng.choice(progs[:n_base]), f"r{index}t{len(progs)}"))
+    pairs = []
     if rng.random() < 0.3:
-        progs.append(gen.near_variant_of(rng, rng.choice(progs), f"r{index}t{len(progs)}"))
-    if rng.random() < 0.15:
-        pair = gen.comment_lookalike_pair(rng, rng.choice(progs), f"r{index}t{len(progs)}", f"r{index}t{len(progs) + 1}")
+        b = rng.randrange(len(progs))
+        progs.append(gen.near_variant_of(rng, progs[b], f"r{index}t{len(progs)}"))
+        pairs.append((b, len(progs) - 1))
+    if rng.random() < 0.3:
+        style = None
+        base = rng.choice(progs)
+        if rng.random() < 0.4:
+            # deployments are expensive (interpreter starts): lean towards the look-alikes that need a particular program shape
+            withtuple = [p for p in progs if any(t.isdigit() and i > 0 and p.tokens[i - 1] in ("(", ",") and i + 1 < len(p.tokens)
+                                                and p.tokens[i + 1] in (",", ")") for i, t in enumerate(p.tokens))]
+            if withtuple:
+                base, style = rng.choice(withtuple), "quote_num"
+            else:
+                style = "num_type"
+        pair = gen.lookalike_pair(rng, base, f"r{index}t{len(progs)}", f"r{index}t{len(progs) + 1}", style=style)
         if pair:
             progs.extend(pair)
+            pairs.append((len(progs) - 2, len(progs) - 1))
     if rng.random() < 0.25:
         # part of the history, not of the domain: a text the tree rejects (a deployment that went wrong) - nothing it does may
         # change what valid texts do afterwards
@@ -101,6 +115,21 @@ def gen_scenario(rng, index):
             ops.append({"op": "broadcast", "t": rng.randrange(len(texts)), "p": rng.randrange(10), "order": order})
         else:
             ops.append({"op": "call", "n": n, "slot": s, "p": rng.randrange(10)})
+    # look-alike texts one straight after the other on the same evaluator (a "recompile cycle" between near-identical revisions)
+    for (a, b) in pairs:
+        if rng.random() < 0.8:
+            n, sl = rng.randrange(n_nodes), rng.randrange(n_slots)
+            if rng.random() < 0.5:
+                a, b = b, a
+            seq = [{"op": "new", "n": n, "slot": sl, "t": a}, {"op": "call", "n": n, "slot": sl, "p": rng.randrange(10)},
+                   {"op": "recompile", "n": n, "slot": sl, "t": b}]
+            seq += [{"op": "call", "n": n, "slot": sl, "p": k} for k in range(4)]
+            seq += [{"op": "recompile", "n": n, "slot": sl, "t": a}, {"op": "call", "n": n, "slot": sl, "p": rng.randrange(10)}]
+            # the same units on an evaluator that was built from b directly, somewhere else
+            n2, sl2 = rng.randrange(n_nodes), rng.randrange(n_slots)
+            seq += [{"op": "new", "n": n2, "slot": sl2, "t": b}] + [{"op": "call", "n": n2, "slot": sl2, "p": k} for k in range(4)]
+            at = rng.randrange(len(ops) + 1)
+            ops[at:at] = seq
     return {"index": index, "texts": texts, "nodes": nodes, "n_slots": n_slots, "ops": ops}
 
 
